@@ -102,6 +102,10 @@ impl StarkProof {
 
         let fri = self.proof_parameters.stark.fri.clone();
 
+        // The verifier holds the difficulty in 8 bits.
+        if fri.proof_of_work_bits > u8::MAX as u32 {
+            anyhow::bail!("proof_of_work_bits does not fit in 8 bits");
+        }
         let proof_of_work = ProofOfWorkConfig { n_bits: fri.proof_of_work_bits };
         let n_queries = fri.n_queries;
 
@@ -392,6 +396,10 @@ impl TryFrom<StarkProof> for stark_proof::StarkProof {
             &value.annotations.iter().map(String::as_str).collect::<Vec<_>>(),
             value.proof_parameters.stark.fri.fri_step_list.len(),
         )?;
+        // The verifier holds the nonce in 64 bits.
+        if annotations.proof_of_work_nonce.bits() > 64 {
+            anyhow::bail!("proof of work nonce does not fit in 64 bits");
+        }
         let public_input = StarkProof::public_input(
             value.public_input.clone(),
             annotations.z.clone(),
